@@ -1,8 +1,8 @@
 #!/bin/sh
-# tools/allseeds.sh [-P n] : run every stored seeded change against the quick check of its property (scratch copy of
+# tools/allseeds.sh  (env P=n parallel runs, ONLY=regex restricts the ids) : run every stored seeded change against the quick check of its property (scratch copy of
 # /repo HEAD + patch, outside /repo and /verif, removed afterwards); writes seeded/<id>/recheck.json and prints a table
 cd /verif
-ls seeded | xargs -P ${P:-6} -I{} sh -c '
+ls seeded | grep -E "${ONLY:-.}" | xargs -P ${P:-6} -I{} sh -c '
   ID={}; D=/verif/seeded/$ID
   PROP=$(python3 -c "import json;m=json.load(open(\"$D/meta.json\"));print(m.get(\"detected_by_property\",m[\"property\"]))" 2>/dev/null)
   [ -z "$PROP" ] && { echo "$ID no-meta"; exit 0; }
